@@ -619,6 +619,10 @@ fn verify<S: IndexedFull>(repo: &Repository<S>, snap: &SnapshotFile, prefix: &Pa
         };
         let n1 = same("node_from_path", repo.node_from_path(root_tree, &rel))?;
         _ = same("vfs-node_from_path", vfs.node_from_path(repo, &rel))?;
+        // a leading `/` (root component) is skipped by the lookup
+        let mut abs = b"/".to_vec();
+        abs.extend_from_slice(&e.rel);
+        _ = same("node_from_path-absolute", repo.node_from_path(root_tree, &PathBuf::from(os(&abs))))?;
         let full = prefix.join(&rel);
         // (the snapshot tree of `backup` of an absolute path has no root component)
         if let Some(s) = full.to_str() {
